@@ -158,51 +158,52 @@ Proof.
   - unfold imports_ok_b. apply forallb_forall. intros it _. destruct it; reflexivity.
 Qed.
 
-(* ---------- C10_py_defaults_exist ---------- *)
+(* ---------- C10_py_defaults_exist (unguarded since the fix of empty-enum) ---------- *)
 
-Lemma py_defval_some s eager t :
-  forallb (enum_ref_nonempty s) (ty_refs t) = true -> exists us, py_defval s eager t = Some us.
+Lemma py_defval_some s eager t : exists us, py_defval s eager t = Some us.
 Proof.
-  induction t as [b | r | e IH cap x]; intros H.
+  induction t as [b | r | e IH cap x].
   - eexists. reflexivity.
-  - cbn [ty_refs forallb] in H. rewrite andb_true_r in H. cbn [py_defval].
-    unfold enum_ref_nonempty in H. destruct (r_k r).
-    + destruct (enum_members s r) as [[|m ms]|]; try discriminate. eexists. reflexivity.
+  - cbn [py_defval]. destruct (r_k r).
+    + destruct (enum_members s r) as [[|m ms]|]; eexists; reflexivity.
     + eexists. reflexivity.
     + eexists. reflexivity.
-  - cbn [ty_refs] in H. cbn [py_defval]. destruct (is_byte e); [eexists; reflexivity|]. apply IH. exact H.
+  - cbn [py_defval]. destruct (is_byte e); [eexists; reflexivity | exact IH].
 Qed.
 
-Lemma file_refs_def s i fd :
-  In fd (flat_file (getf s i)) -> forall p, forallb p (file_refs s i) = true -> forallb p (def_refs (fd_def fd)) = true.
-Proof.
-  intros Hin p H. unfold file_refs in H. rewrite forallb_flat_map in H.
-  rewrite forallb_forall in H. exact (H fd Hin).
-Qed.
+Lemma py_field_default_some s t : exists us, py_field_default s t = Some us.
+Proof. unfold py_field_default. destruct (is_arr t); apply py_defval_some. Qed.
 
 Theorem py_defaults_exist s i flt :
-  g_enum_nonempty s i = true ->
   (exists its, render s i TgPy flt = Some its) /\
-  (forall fd n x nested fs fl, In fd (flat_file (getf s i)) -> fd_def fd = DMsg n x nested fs -> In fl fs ->
-     exists us, py_field_default s (fl_ty fl) = Some us) /\
-  (forall r, In r (file_refs s i) -> r_k r = RkEnum -> exists m ms, enum_members s r = Some (m :: ms)).
+  (forall fl, exists us, py_field_default s (fl_ty fl) = Some us) /\
+  (* the default of an enum-typed field mentions the enum class only when the enum has a member *)
+  (forall r eager, r_k r = RkEnum ->
+     match enum_members s r with
+     | Some (_ :: _) => py_defval s eager (TRef r) = Some [mkUse NsMod (ref_qual LPy r) (ref_name s LPy r) eager]
+     | _ => py_defval s eager (TRef r) = Some []
+     end).
 Proof.
-  intros Hg. unfold g_enum_nonempty in Hg. apply andb_true_iff in Hg. destruct Hg as [Hg _].
-  assert (Hfield : forall fd n x nested fs fl, In fd (flat_file (getf s i)) -> fd_def fd = DMsg n x nested fs ->
-                   In fl fs -> exists us, py_field_default s (fl_ty fl) = Some us).
-  { intros fd n x nested fs fl Hin Hd Hfl.
-    pose proof (file_refs_def s i fd Hin _ Hg) as Hr. rewrite Hd in Hr. cbn [def_refs] in Hr.
-    rewrite forallb_flat_map in Hr. rewrite forallb_forall in Hr. specialize (Hr fl Hfl).
-    unfold py_field_default. destruct (is_arr (fl_ty fl)); apply py_defval_some; exact Hr. }
   split; [|split].
   - unfold render. replace (existsb (py_raises s) (flat_file (getf s i))) with false; [eexists; reflexivity|].
-    symmetry. apply existsb_false_forall. intros fd Hin. unfold py_raises.
-    destruct (fd_def fd) as [n v | n t | n w ms | n x nested fs] eqn:Hd; try reflexivity.
-    + pose proof (file_refs_def s i fd Hin _ Hg) as Hr. rewrite Hd in Hr. cbn [def_refs] in Hr.
-      destruct (py_defval_some s false t Hr) as [us ->]. reflexivity.
-    + apply existsb_false_forall. intros fl Hfl.
-      destruct (Hfield fd n x nested fs fl Hin Hd Hfl) as [us ->]. reflexivity.
-  - exact Hfield.
-  - intros r Hr Hk. rewrite forallb_forall in Hg. specialize (Hg r Hr). unfold enum_ref_nonempty in Hg.
-    rewrite Hk in Hg. destruct (enum_members s r) as [[|m ms]|]; try discriminate. eauto.
+    symmetry. apply existsb_false_forall. intros fd _. unfold py_raises.
+    destruct (fd_def fd) as [n v | n t | n w ms | n x nested fs]; try reflexivity.
+    + destruct (py_defval_some s false t) as [us ->]. reflexivity.
+    + apply existsb_false_forall. intros fl _. destruct (py_field_default_some s (fl_ty fl)) as [us ->]. reflexivity.
+  - intros fl. apply py_field_default_some.
+  - intros r eager Hk. cbn [py_defval]. rewrite Hk. destruct (enum_members s r) as [[|m ms]|]; reflexivity.
+Qed.
+
+(* ---------- string constants: every character that would end or corrupt a double-quoted
+   literal in C, Go or Python is escaped by the translated Formatter.escape_str_value ---------- *)
+Theorem string_constants_escaped s i : str_consts_ok s i = true.
+Proof.
+  unfold str_consts_ok. apply forallb_forall. intros d _. destruct d as [n v | | |]; try reflexivity.
+  destruct v as [z | b | v]; try reflexivity. apply forallb_forall. intros c _.
+  unfold bad_str_char, char_escaped.
+  destruct (nat_of_ascii c =? 34) eqn:E1; [apply Nat.eqb_eq in E1; rewrite E1; reflexivity|].
+  destruct (nat_of_ascii c =? 92) eqn:E2; [apply Nat.eqb_eq in E2; rewrite E2; reflexivity|].
+  destruct (nat_of_ascii c =? 10) eqn:E3; [apply Nat.eqb_eq in E3; rewrite E3; reflexivity|].
+  destruct (nat_of_ascii c =? 13) eqn:E4; [apply Nat.eqb_eq in E4; rewrite E4; reflexivity|].
+  reflexivity.
 Qed.
